@@ -78,7 +78,8 @@ Definition to_int (p : plain) : res Z :=
   match p with
   | PBool b => Ok (if b then 1 else 0)%Z
   | PInt z => Ok z
-  | PFloat _ | PStr _ | PBytes _ | PByteArray _ => Err EUnmodelled   (* int(3.7), int("12") *)
+  | PFloat _ => Err EValue                                          (* a fraction is refused, alone and inside a list (D57) *)
+  | PStr _ | PBytes _ | PByteArray _ => Err EUnmodelled              (* int("12") *)
   | _ => Err EType
   end.
 (* self._base_type(item) for a float class *)
